@@ -168,3 +168,228 @@ def r_row_perm_krum(c):
         with patched(torch, "cdist", lambda a, b, **kw: t64(Dp)):
             w2 = A.weighting(torch.zeros(m, 1, dtype=torch.float64)).numpy()
     return dict(reproduced=not close(w1[perm], w2), w=w1.tolist(), w_permuted_run=w2.tolist(), euclidean=X is not None)
+
+
+@handler("impartial")
+def r_impartial(c):
+    agg = c["agg"]
+    if agg == "imtlg":
+        J = gram_to_matrix(c["G"])
+        G = J @ J.T
+        A = make_agg("imtlg", J.shape[0])
+        w = A.weighting(t64(J)).numpy()
+        nr = np.sqrt(np.diag(G))
+        proj = (G @ w) / nr
+        bad = []
+        if abs(w.sum() - 1) > 1e-6:
+            bad.append(f"weights sum to {w.sum()}")
+        if np.max(np.abs(proj - proj[0])) > 1e-6 * max(1.0, np.abs(proj).max()):
+            bad.append(f"projections differ: {proj.tolist()}")
+        key = None
+        if bad and not np.any(w):
+            d = torch.linalg.norm(t64(J), dim=1)
+            v = (torch.linalg.pinv(t64(G)) @ d).numpy()
+            if abs(v.sum()) > 1e-12 * np.abs(v).sum():
+                key = "imtlg:absolute-threshold-zeroes-well-defined-weights"
+        return dict(reproduced=bool(bad), why=bad, weights=w.tolist(), finding_key=key)
+    if agg == "config":
+        J = np.asarray(arr(c["J"]), dtype=float)
+        m = J.shape[0]
+        pref = c.get("pref")
+        out = make_agg("config", m, None, pref)(t64(J)).numpy()
+        u = np.asarray(arr(pref), dtype=float) if pref is not None else np.ones(m)
+        cos = (J @ out) / (np.linalg.norm(J, axis=1) * max(np.linalg.norm(out), 1e-300))
+        bad = []
+        if np.any(cos <= 0):
+            bad.append(f"non-positive cosine {cos.tolist()}")
+        r = cos / u
+        if np.max(np.abs(r - r[0])) > 1e-6 * max(1.0, abs(r[0])):
+            bad.append(f"cosines not proportional to the preferences: {cos.tolist()}")
+        if abs(np.linalg.norm(out) - float((J @ out).sum() / max(np.linalg.norm(out), 1e-300))) > 1e-6 * max(1.0, np.linalg.norm(out)):
+            bad.append("length is not the sum of the projections")
+        return dict(reproduced=bool(bad), why=bad, out=out.tolist())
+    if agg == "alignedmtl":
+        J = gram_to_matrix(c["G"])
+        m = J.shape[0]
+        pref = c.get("pref")
+        A = make_agg("alignedmtl", m, None, pref)
+        out = A(t64(J)).numpy()
+        u = np.asarray(arr(pref), dtype=float) if pref is not None else np.ones(m) / m
+        lam, V = np.linalg.eigh(J @ J.T)
+        Bm = np.sqrt(lam.min()) * V @ np.diag(1 / np.sqrt(lam)) @ V.T
+        ref = (Bm @ u) @ J
+        return dict(reproduced=not close(out, ref, 1e-5), out=out.tolist(), reference=ref.tolist())
+    raise KeyError(agg)
+
+
+@handler("zero_matrix")
+def r_zero(c):
+    A = make_agg(c["agg"], int(c["m"]))
+    try:
+        out = A(torch.zeros(int(c["m"]), int(c["n"]), dtype=torch.float64)).numpy()
+    except Exception as e:  # noqa
+        return dict(reproduced=True, why=[f"raised {type(e).__name__}: {e}"])
+    return dict(reproduced=bool(out.shape != (int(c["n"]),) or np.any(out != 0)), out=out.tolist())
+
+
+# ------------------------------------------------------------------------------------------- C11
+def _agg_from_c11(c, m):
+    p = c.get("params") or {}
+    agg = c["agg"]
+    def vec(prefix):
+        vals = [p.get(f"{prefix}{i}") for i in range(m)]
+        return None if any(v is None for v in vals) else vals
+    if agg == "constant":
+        return make_agg("constant", m, None, vec("cw"))
+    if agg == "dualproj":
+        return make_agg("dualproj", m, p, vec("u"))
+    if agg == "graddrop":
+        return make_agg("graddrop", m, None, vec("leak") if c.get("leak") else None)
+    if agg == "trimmed_mean":
+        return make_agg("trimmed_mean", m, dict(b=(m - 1) // 2 if m > 2 else 0))
+    if agg == "krum":
+        return make_agg("krum", m, dict(f=0 if m == 3 else 1, k=c.get("k", 1)))
+    return make_agg(agg, m, p)
+
+
+@handler("homogeneity")
+def r_homog(c):
+    J = gram_to_matrix(c["G"])
+    t = num(c["t"])
+    m = J.shape[0]
+    A = _agg_from_c11(c, m)
+    torch.manual_seed(0)
+    o1 = A(t64(J)).numpy()
+    torch.manual_seed(0)
+    o2 = A(t64(J * t)).numpy()
+    bad = not close(o2, t * o1, 1e-5)
+    key = None
+    if bad and c["agg"] == "imtlg" and not np.any(o1 if abs(t) < 1 else o2) :
+        key = "imtlg:absolute-threshold-zeroes-well-defined-weights"
+    return dict(reproduced=bad, A_J=o1.tolist(), A_tJ=o2.tolist(), t=t, finding_key=key)
+
+
+@handler("homogeneity_entry")
+def r_homog_entry(c):
+    J = np.asarray(arr(c["J"]), dtype=float)
+    t = num(c["t"])
+    m = J.shape[0]
+    U = t64(np.asarray(arr(c["U"]), dtype=float)) if c.get("U") else None
+    A = _agg_from_c11(dict(c, leak=any(k.startswith("leak") and v is not None for k, v in (c.get("params") or {}).items())), m)
+    def run(X):
+        if U is not None and c["agg"] == "graddrop":
+            with patched(torch, "rand", lambda *a, **k: U[:X.shape[1]]):
+                return A(t64(X)).numpy()
+        return A(t64(X)).numpy()
+    o1, o2 = run(J), run(J * t)
+    return dict(reproduced=not close(o2, t * o1, 1e-6), A_J=o1.tolist(), A_tJ=o2.tolist())
+
+
+@handler("total")
+def r_total(c):
+    m = int(c["m"])
+    dt = torch.float64 if "64" in c.get("dtype", "") else torch.float32
+    if "G" in c:
+        J = gram_to_matrix(c["G"])
+    else:
+        X = dist_to_matrix(np.asarray(arr(c["dist"]), dtype=float))
+        J = X if X is not None else np.eye(m)
+    A = _agg_from_c11(c, m)
+    for mod in A.modules():
+        for k, v in list(vars(mod).items()):
+            if isinstance(v, torch.Tensor):
+                setattr(mod, k, v.to(dt))
+    try:
+        out = A(torch.tensor(J, dtype=dt))
+    except Exception as e:  # noqa
+        return dict(reproduced=True, why=[f"raised {type(e).__name__}: {e}"])
+    bad = []
+    if tuple(out.shape) != (J.shape[1],):
+        bad.append(f"shape {tuple(out.shape)}")
+    if out.dtype != dt:
+        bad.append(f"dtype {out.dtype} for input {dt}")
+    if not torch.isfinite(out).all():
+        bad.append("non-finite output")
+    return dict(reproduced=bool(bad), why=bad)
+
+
+@handler("total_entry")
+def r_total_entry(c):
+    J = np.asarray(arr(c["J"]), dtype=float)
+    m = J.shape[0]
+    dt = torch.float64 if "64" in c.get("dtype", "") else torch.float32
+    A = _agg_from_c11(dict(c, leak=False), m)
+    X = torch.tensor(J, dtype=dt)
+    X0 = X.clone()
+    try:
+        out = A(X)
+    except Exception as e:  # noqa
+        return dict(reproduced=True, why=[f"raised {type(e).__name__}: {e}"])
+    bad = []
+    if tuple(out.shape) != (J.shape[1],) or out.dtype != dt:
+        bad.append(f"shape/dtype {tuple(out.shape)} {out.dtype}")
+    if not torch.isfinite(out).all():
+        bad.append("non-finite output")
+    if not torch.equal(X, X0):
+        bad.append("input modified")
+    return dict(reproduced=bool(bad), why=bad)
+
+
+@handler("reject")
+def r_reject(c):
+    agg = c["agg"]
+    m = 4 if agg == "krum" else 3
+    import torchjd.aggregation as ta
+    A = {"constant": lambda: ta.Constant(torch.ones(m, dtype=torch.float64)), "graddrop": lambda: ta.GradDrop(leak=torch.ones(m, dtype=torch.float64) * 0.5 if c.get("what") == "rows" else None),
+         "trimmed_mean": lambda: ta.TrimmedMean(1), "krum": lambda: ta.Krum(1, 1), "dualproj": lambda: ta.DualProj(), "cagrad": lambda: ta.CAGrad(c=0.5)}.get(agg, lambda: make_agg(agg, m))()
+    if c["what"] == "shape":
+        X = torch.ones(tuple(c["shape"]), dtype=torch.float64)
+    elif c["what"] == "special":
+        X = torch.ones(int(c["m"]), int(c["n"]), dtype=torch.float64)
+        X.view(-1)[int(c["position"])] = float(c["special"])
+    else:
+        X = torch.ones(int(c["rows"]), 2, dtype=torch.float64)
+    return expect_value_error(lambda: A(X))
+
+
+@handler("stateless")
+def r_stateless(c):
+    m = 3 if c["agg"] == "krum" else 2
+    rng = np.random.default_rng(0)
+    bad = []
+    for trial in range(5):
+        J1, J2 = rng.normal(size=(m, 3)), rng.normal(size=(m, 3))
+        A, Bg = _agg_from_c11(c, m), _agg_from_c11(c, m)
+        torch.manual_seed(1)
+        A(t64(J1))
+        torch.manual_seed(2)
+        oa = A(t64(J2)).numpy()
+        torch.manual_seed(2)
+        ob = Bg(t64(J2)).numpy()
+        if not close(oa, ob, 1e-6):
+            bad.append(f"trial {trial}: {oa.tolist()} vs {ob.tolist()}")
+    return dict(reproduced=bool(bad), why=bad[:2])
+
+
+@handler("seeded")
+def r_seeded(c):
+    J = t64(np.array([[1.0, -2.0, 0.5], [-1.0, 1.0, 3.0]]))
+    A = make_agg(c["agg"], 2)
+    torch.manual_seed(7)
+    o1 = A(J).numpy()
+    torch.manual_seed(7)
+    o2 = A(J).numpy()
+    return dict(reproduced=not close(o1, o2, 0))
+
+
+@handler("homogeneity_krum")
+def r_homog_krum(c):
+    D = np.asarray(arr(c["dist"]), dtype=float)
+    t = num(c["t"])
+    m = D.shape[0]
+    A = make_agg("krum", m, dict(f=0 if m == 3 else 1, k=1))
+    with patched(torch, "cdist", lambda a, b, **kw: t64(D)):
+        w1 = A.weighting(torch.zeros(m, 1, dtype=torch.float64)).numpy()
+    with patched(torch, "cdist", lambda a, b, **kw: t64(D * t)):
+        w2 = A.weighting(torch.zeros(m, 1, dtype=torch.float64)).numpy()
+    return dict(reproduced=not close(w1, w2))
